@@ -33,8 +33,8 @@ ASSUMPTIONS = [
 ]
 RESP = ['Module', 'Redirect', 'External', 'NotFound', 'ChecksumError', 'OtherError']     # External doubles as Cached for ensure_cached
 
-def cubes(tier, has_fc): return [{'asset': a, 'from': f} for f in ('try_load', 'pending') for a in (False, True)]
-def cube_name(c): return ('load_pending_' if c.get('from') == 'pending' else 'try_load_') + ('asset' if c['asset'] else 'module')
+def cubes(tier, has_fc): return [{'asset': a, 'from': f} for f in ('try_load', 'pending') for a in (False, True)] + [{'asset': False, 'from': 'jsr', 'info': True}, {'asset': False, 'from': 'jsr', 'info': False}, {'asset': True, 'from': 'jsr', 'info': True}]
+def cube_name(c): return ({'pending': 'load_pending_', 'jsr': 'load_jsr_subpath_'}.get(c.get('from'), 'try_load_')) + ('asset' if c['asset'] else 'module') + (('_with_embedded_info' if c['info'] else '_without_embedded_info') if c.get('from') == 'jsr' else '')
 
 def build(mir, cube):
     sym = Sym()
@@ -43,9 +43,13 @@ def build(mir, cube):
     eng.cfg['N'] = 3; eng.cfg['scheme'] = [sym.bv(f'scheme{u}', 8, lt=len(SCHEMES)) for u in range(3)]
     is_asset = z3.BoolVal(cube['asset'])
     is_root, in_dyn, was_dyn_root, cfg_imports = sym.bool('is_root'), sym.bool('in_dynamic_branch'), sym.bool('was_dynamic_root'), sym.bool('unstable_config_imports')
-    pending = cube.get('from') == 'pending'
-    has_vi = sym.bool('version_info_embedded')
-    if pending:
+    jsr = cube.get('from') == 'jsr'          # one more level up: Builder::load_jsr_subpath (a file of a registry package with embedded version info)
+    pending = cube.get('from') in ('pending', 'jsr')
+    has_vi = z3.BoolVal(True) if jsr else sym.bool('version_info_embedded')
+    if jsr:
+        item_ck, has_locker, locker_has, registry_url = z3.BoolVal(True), sym.bool('has_locker'), sym.bool('lockfile_has_checksum'), sym.bool('url_points_into_registry')
+        has_ck = z3.BoolVal(True); has_vfut = z3.BoolVal(False)
+    elif pending:
         # start one level up, at Builder::load_pending_module: the checksum comes from the queued item or else from the lockfile,
         # and a manifest load is pending exactly for an https URL into the registry without embedded version info
         item_ck, has_locker, locker_has, registry_url = sym.bool('item_carries_checksum'), sym.bool('has_locker'), sym.bool('lockfile_has_checksum'), sym.bool('url_points_into_registry')
@@ -170,11 +174,37 @@ def build(mir, cube):
                         'was_dynamic_root': was_dyn_root, 'unstable_config_imports': cfg_imports, 'locker': opt(has_locker, ref_to(Opaque('locker'), 'locker')),
                         'state': Agg([O] * len(st['PendingState']))}.get(f, O) for f in st['Builder']])
         broot = Root(builder, 'builder')
-        eng.call(mir.find('Builder', 'load_pending_module'), [Ptr([(TRUE, (broot, ()))]), item], TRUE)
+        msi_parses = []
+        if jsr:
+            mt_spec = sym.bv('media_type_by_extension', 8, lt=len(en['MediaType']))
+            def stub_poll_msi(e, c, a, g):
+                v = a[0]
+                while not isinstance(v, CoroV): v = e.load(v) if isinstance(v, Ptr) else v.f[0]
+                o = v.up[1]; F = st['ParseModuleAndSourceInfoOptions']
+                msi_parses.append((g, v.up[0], o.f[F.index('content')], uid(e, o.f[F.index('specifier')])))
+                return ready(EnumV(IF(parse_ok, BV(0, 8), BV(1, 8)), {0: Agg([Opaque('module source and info')]), 1: Agg([Agg([BoxV(EnumV(BV(en['ModuleErrorKind'].index('Parse'), 8), {}))])])}))
+            eng.cfg['stubs'] += [
+                (re.compile(r'.*JsrPackageVersionInfo::module_info'), lambda e, c, a, g: opt(z3.BoolVal(bool(cube.get('info'))), Opaque('embedded module info'))),
+                (re.compile(r'<Arc<.*JsrPackageVersionInfo> as Deref>::deref'), ident),
+                (re.compile(r'MediaType::from_specifier'), lambda e, c, a, g: EnumV(mt_spec, {})),
+                (re.compile(r'<\{async fn body of .*parse_module_source_and_info\(\)\} as .*Future>::poll'), stub_poll_msi),
+                (re.compile(r'Arc::<\[u8; \d+\]>::new'), lambda e, c, a, g: Agg([BV(99, 8)])),
+                (re.compile(r'RefCell::<.*>::new|Box::<\(.*LoaderChecksum, .*ModuleInfo\)>::new'), ident),
+                (re.compile(r'<.*ModuleInfo as Clone>::clone'), ident),
+            ]
+            builder = Agg([b if f != 'in_dynamic_branch' else in_dyn for f, b in zip(st['Builder'], builder.f)])
+            broot = Root(builder, 'builder')
+            vinfo = Agg([{'base_url': UrlV(BV(2, 8)), 'inner': Opaque('version info')}[f] for f in st['JsrPackageVersionInfoExt']])
+            options = Agg([{'specifier': url_ref(BV(0, 8)), 'maybe_range': opt(has_range, ref_to(rng, 'range')), 'maybe_source_phase_referrer': opt(has_spr, ref_to(rng, 'spr')),
+                            'is_asset': is_asset, 'in_dynamic_branch': in_dyn, 'is_root': is_root, 'maybe_attribute_type': vals['maybe_attribute_type'],
+                            'maybe_version_info': opt(TRUE, ref_to(vinfo, 'vi'))}[f] for f in st['LoadOptionsRef']])
+            eng.call(mir.find('Builder', 'load_jsr_subpath'), [Ptr([(TRUE, (broot, ()))]), rc, url_ref(BV(0, 8)), ref_to(vinfo, 'vi'), ref_to(SymStr('sub path'), 'sub'), options], TRUE)
+        else:
+            eng.call(mir.find('Builder', 'load_pending_module'), [Ptr([(TRUE, (broot, ()))]), item], TRUE)
         if len(queued) != 1 or not isinstance(queued[0][1], CoroV): raise Unsupported(f'load_pending_module queued {len(queued)} futures: {[(str(g)[:60], type(v).__name__) for g, v in queued]}')
         fut = queued[0][1]
         span = re.match(r'\{coroutine@(.*?) \(#\d+\)\}', fut.span).group(1)
-        poll = eng.dispatch('<{async block@' + span + '} as Future>::poll', [Agg([ref_to(fut, 'queued-future')]), Opaque('task context')], TRUE, None)
+        poll = eng.dispatch('<{async block@' + span + '} as Future>::poll', [Agg([ref_to(fut, 'queued-future')]), Opaque('task context')], queued[0][0], None)
         ready_ = poll.is_variant(0)
         res = poll.vars[0].f[0].f[st['PendingInfo'].index('result')]
         slots_after = slots.val.f[st['ModuleGraph'].index('module_slots')]
@@ -210,7 +240,7 @@ def build(mir, cube):
     # the checksum known when the loader is asked
     manifest_applies = z3.And(has_vfut, vfut_ok, sub_listed, manifest_ck_ok)
     known = z3.Or(has_ck, manifest_applies)
-    entry_tok = z3.If(item_ck, z3.BitVecVal(CK_ENTRY, 8), z3.BitVecVal(CK_LOCK, 8)) if pending else z3.BitVecVal(CK_ENTRY, 8)
+    entry_tok = z3.BitVecVal(CK_MANIFEST, 8) if jsr else z3.If(item_ck, z3.BitVecVal(CK_ENTRY, 8), z3.BitVecVal(CK_LOCK, 8)) if pending else z3.BitVecVal(CK_ENTRY, 8)
     known_tok = z3.If(manifest_applies, z3.BitVecVal(CK_MANIFEST, 8), entry_tok)
     vi_after = z3.Or(has_vi, z3.And(has_vfut, vfut_ok))      # version info present when the loader is asked
     CS = en['CacheSetting']
@@ -238,6 +268,37 @@ def build(mir, cube):
     real = ([z3.Not(item_ck), has_locker, z3.Not(registry_url)] if pending else []) + [parse_ok, z3.Not(has_vi), z3.Not(has_vfut), rc == 0, maxr == 10, has_range, z3.Not(has_spr), z3.Not(has_attr) if not cube['asset'] else has_attr, z3.Not(is_root), z3.Not(was_dyn_root), z3.Not(in_dyn)]
     kw = dict(ops=[Op()], world=W(), realizable=real)
     if cube.get('op_only'): return eng, W(), [], [Query('op', FALSE, **kw)]
+    if jsr:
+        kw = {}      # a registry package cannot be rebuilt by the native replay: these cubes are decided by the solver alone (a counterexample is reported as inconclusive)
+        SLOT = en['ModuleSlot']; sv = slots_after.vals[0]
+        slot_is = lambda name: z3.And(slots_after.present[0], sv.tag == SLOT.index(name))
+        jsr_qs = [Query('no-panic', Or(g for _, g in eng.panics)),
+                  Query('an-unusable-manifest-checksum-is-an-error-entry-and-nothing-is-loaded', z3.And(z3.Not(manifest_ck_ok), z3.Or(Or(c[0] for c in calls), queued[0][0], z3.Not(slot_is('Err'))))),
+                  Query('otherwise-exactly-one-load-future-is-queued-and-the-file-is-marked-pending', z3.And(manifest_ck_ok, z3.Or(z3.Not(queued[0][0]), z3.Not(ready_), z3.Not(slot_is('Pending'))))),
+                  Query('every-loader-call-carries-exactly-the-manifest-checksum', Or(z3.And(c[0], z3.Or(z3.Not(c[4]), c[5] != CK_MANIFEST)) for c in calls)),
+                  Query('loader-is-asked-for-the-file-with-the-request-flags', Or(z3.And(c[0], z3.Or(c[2] != 0, c[7] != was_dyn_root)) for c in calls))]
+        for fname_ in sorted({f for f, _ in eng.exceeded}): jsr_qs.append(Query('unwinding:' + fname_.split('>::')[-1], Or(g for f, g in eng.exceeded if f == fname_), kind='unwind'))
+    if jsr and cube.get('info') and not cube['asset']:
+        # embedded module information: one cache-only probe, then either the embedded information (content deferred) or what the cache delivered
+        if len(calls) != 1 or calls[0][1] != 'load': raise Unsupported(f'probe cube: loader calls {[c[1] for c in calls]}')
+        pc = calls[0]; M = PIR.index('Module')
+        pl = okv.vars[M].f[2] if M in okv.vars else None       # pending_load
+        plp = opt_payload(pl) if isinstance(pl, EnumV) else None
+        while isinstance(plp, BoxV): plp = plp.val
+        pl_tok = plp.f[0].f[0] if isinstance(plp, Agg) and isinstance(plp.f[0], Agg) else None
+        def parsed(content_tok, provided):
+            return Or(z3.And(pg, (ct.f[0] == content_tok) if isinstance(ct, Agg) and z3.is_bv(ct.f[0]) else z3.BoolVal(False), z3.BoolVal((not isinstance(an, Opaque)) == provided)) for pg, an, ct, sp in msi_parses)
+        ok = manifest_ck_ok
+        jsr_qs += [
+            Query('the-probe-is-cache-only', z3.Or(pc[0] != ok, z3.And(pc[0], pc[3] != CS.index('Only')))),
+            Query('a-redirect-answer-is-rejected-as-redirect-in-package', z3.And(ok, A(r0, 'Redirect'), z3.Not(err_is('Load', 'Jsr', 'RedirectInPackage')))),
+            Query('cached-content-is-parsed-as-delivered-with-the-real-analyzer', z3.And(ok, A(r0, 'Module'), z3.Not(z3.And(parsed(10, False), z3.Or(z3.Not(parse_ok), okModule))))),
+            Query('no-cached-copy-uses-the-embedded-information-and-defers-the-content-load-with-the-manifest-checksum',
+                  z3.And(ok, A(r0, 'NotFound'), z3.Not(z3.And(parsed(99, True), z3.Or(z3.Not(parse_ok), z3.And(okModule, opt_is_some(pl) if isinstance(pl, EnumV) else z3.BoolVal(False), (pl_tok == CK_MANIFEST) if pl_tok is not None else z3.BoolVal(False))))))),
+            Query('a-loader-error-on-the-probe-is-an-error-entry', z3.And(ok, z3.Or(A(r0, 'ChecksumError'), A(r0, 'OtherError')), z3.Not(err_is('Load', 'Loader')))),
+            Query('witness-embedded-information-used', z3.And(ok, A(r0, 'NotFound'), okModule), expect='sat', kind='witness'),
+            Query('witness-cached-copy-used', z3.And(ok, A(r0, 'Module'), okModule), expect='sat', kind='witness')]
+        return eng, W(), list(sym.cons), jsr_qs
     qs = [Query('no-panic', Or(g for _, g in eng.panics)), Query('first-poll-completes', z3.Not(ready_))]
     for fname_ in sorted({f for f, _ in eng.exceeded}): qs.append(Query('unwinding:' + fname_.split('>::')[-1], Or(g for f, g in eng.exceeded if f == fname_), kind='unwind'))
     qs.append(Query('the-other-loader-entry-point-is-not-used', Or(c[0] for c in other)))
@@ -263,7 +324,7 @@ def build(mir, cube):
                         Or(z3.And(pg, z3.Not(z3.Or(z3.And(g1, A(r0, 'Module'), cid == 10, z3.Not(g2)), z3.And(g2, A(r1, 'Module'), cid == 11)))) for pg, cid, _ in parses), **kw))
         qs.append(Query('witness-retry-delivers-a-module', z3.And(after_integrity, okModule), expect='sat', kind='witness', **kw))
     if pending:
-        qs.append(Query('exactly-one-load-future-is-queued-per-request', z3.Not(queued[0][0])))
+        if not jsr: qs.append(Query('exactly-one-load-future-is-queued-per-request', z3.Not(queued[0][0])))
         P = en['ModuleSlot'].index('Pending')
         sv = slots_after.vals[0]
         qs.append(Query('the-requested-specifier-is-marked-pending-with-the-asset-flag', z3.Not(z3.And(slots_after.present[0], sv.tag == P, sv.vars[P].f[0] == is_asset)) if isinstance(sv, EnumV) else z3.BoolVal(True)))
@@ -272,6 +333,12 @@ def build(mir, cube):
     qs.append(Query('witness-checksummed-redirect-rejected', z3.And(redirected, known, z3.Not(vi_after), is_err), expect='sat', kind='witness', **kw))
     qs.append(Query('witness-manifest-checksum-used', z3.And(manifest_applies, g1), expect='sat', kind='witness'))
     qs.append(Query('witness-redirect-followed', okRedirect, expect='sat', kind='witness', **kw))
+    if jsr:
+        qs = [q for q in qs if q.name not in ('no-panic', 'witness-manifest-checksum-used', 'witness-lockfile-checksum-reaches-the-loader', 'witness-retry-delivers-a-module', 'witness-integrity-error', 'witness-checksummed-redirect-rejected', 'witness-redirect-followed', 'an-unchecksummed-redirect-is-followed-up-to-the-limit')]
+        for q in qs:
+            q.formula = z3.And(manifest_ck_ok, q.formula); q.ops, q.world, q.realizable = [], None, None
+        qs = jsr_qs + qs + [Query('witness-integrity-error-inside-a-package', z3.And(manifest_ck_ok, g1, A(r0, 'ChecksumError'), err_is('Load', 'Jsr', 'ContentChecksumIntegrity')), expect='sat', kind='witness'),
+                            Query('witness-module-from-the-package', z3.And(manifest_ck_ok, okModule if not cube['asset'] else okExternal), expect='sat', kind='witness')]
     return eng, W(), list(sym.cons), qs
 
 def differential(mir, seed, count):
